@@ -171,6 +171,15 @@ def build_many(specs):
 
 # ----------------------------------------------------------------------------------------------
 
+def _die_with_parent():
+    # harness processes must not outlive the driver (a killed ./check would otherwise leave them spinning)
+    try:
+        import ctypes
+        ctypes.CDLL("libc.so.6", use_errno=True).prctl(1, 9)     # PR_SET_PDEATHSIG, SIGKILL
+    except Exception:
+        pass
+
+
 def san_env(cfg="asan"):
     e = dict(os.environ)
     # malloc_context_size/quarantine: rapidcheck makes ASan's stack depot and quarantine grow to GBs otherwise
@@ -256,7 +265,7 @@ def run_units(units, prop, seed, tier, jobs=None):
         t0 = time.time()
         try:
             # thorough tiers get four times the unit's time limit: the limit is a safety net against hangs, not a budget
-            r = subprocess.run(u.argv, env=env, stdout=subprocess.PIPE, stderr=subprocess.STDOUT, timeout=u.timeout * (4 if tier == "thorough" else 1),
+            r = subprocess.run(u.argv, env=env, stdout=subprocess.PIPE, stderr=subprocess.STDOUT, timeout=u.timeout * (4 if tier == "thorough" else 1), preexec_fn=_die_with_parent,
                                cwd=u.cwd or env["VERIF_SCRATCH"], errors="replace", text=True)
             u.rc, u.output = r.returncode, r.stdout
         except subprocess.TimeoutExpired as e:
@@ -509,7 +518,7 @@ def replay_with(binary, extra_env=None, args_fn=None, timeout=1500):
             env.update({k: str(v) for k, v in extra_env.items()})
         argv = args_fn(path) if args_fn else [binary, "--replay", path]
         try:
-            r = subprocess.run(argv, env=env, stdout=subprocess.PIPE, stderr=subprocess.STDOUT, timeout=timeout,
+            r = subprocess.run(argv, env=env, stdout=subprocess.PIPE, stderr=subprocess.STDOUT, timeout=timeout, preexec_fn=_die_with_parent,
                                cwd=env["VERIF_SCRATCH"], text=True, errors="replace")
         except subprocess.TimeoutExpired:
             return False
